@@ -32,7 +32,7 @@ fn table_of(rows: &[Vec<u8>]) -> Table {
         // distinct keys; spread so that hash order and key order differ
         m.insert(String::from_utf8(nth_string(b"ACGT", 4, (i as u64 * 37 + 11) % 256)).unwrap(), r.clone());
     }
-    Table { k: 5, rc: true, names: (0..n).map(|i| format!("s{i}")).collect(), rows: m }
+    Table { k: 5, rc: true, names: crate::samples::odd_names(n), rows: m }
 }
 
 /// the same rows under 32-letter keys (k = 33)
@@ -307,7 +307,7 @@ pub fn run(ctx: &Ctx, rep: &mut Report) {
             for i in 0..nrows {
                 rows.insert(String::from_utf8(nth_string(b"ACGT", 6, (i as u64 * 911) % 4096)).unwrap(), patterns[(i * 3 + i / 8) % 8].to_vec());
             }
-            let t = Table { k: 7, rc: true, names: (0..3).map(|i| format!("s{i}")).collect(), rows };
+            let t = Table { k: 7, rc: true, names: crate::samples::odd_names(3), rows };
             for f in specs.iter().skip(nrows % 3).step_by(3) {
                 rep.evaluations += 1;
                 rep.nontrivial += 1;
@@ -380,7 +380,7 @@ pub fn run(ctx: &Ctx, rep: &mut Report) {
                 let row: Vec<u8> = (0..n).map(|i| if i < c { if i % 2 == 0 { b'A' } else { b'C' } } else { b'-' }).collect();
                 rows.insert(String::from_utf8(nth_string(b"ACGT", 4, (c as u64 * 37 + 11) % 256)).unwrap(), row);
             }
-            let t = Table { k: 5, rc: true, names: (0..n).map(|i| format!("s{i}")).collect(), rows };
+            let t = Table { k: 5, rc: true, names: crate::samples::odd_names(n), rows };
             let dir = scratch::path("c06dec");
             std::fs::create_dir_all(&dir).unwrap();
             FileState::fresh(t.clone()).write(&format!("{dir}/in.skf"));
